@@ -50,6 +50,56 @@ def cell_outcomes(runs, src_of, L, preds):
     return out
 
 
+def exact_cells(prog, res, bfi, cells):
+    """-> (bad cells in the format of the table check, undecided [(L, why)], evaluations)"""
+    from ..interp import Analysis
+    bad, und, n = [], [], 0
+    for L, preds, want, why in cells:
+        def entry(it, L=L, preds=preds):
+            cuts = sorted((lo, hi, t) for (lo, hi), t in preds.items() if hi <= L)
+            segs, pos = [], 0
+            for lo, hi, t in cuts:
+                if lo > pos:
+                    src = seqops.new_source(it, f'data{pos}', 'bytes', lo - pos, lo - pos, tags=WIRE)
+                    segs.append(Sl(src, 0, lo - pos))
+                if t:
+                    segs.append(Lit(PAD2))
+                else:
+                    src = seqops.new_source(it, f'not_pad{lo}', 'bytes', hi - lo, hi - lo, tags=WIRE)
+                    piece = seqops.whole(src)
+                    key = ('seq-eq', it._seq_key(piece), it._seq_key(seqops.lit(PAD2)))
+                    it.binds[key] = False
+                    it.binds[('seq-eq', key[2], key[1])] = False
+                    segs.append(Sl(src, 0, hi - lo))
+                pos = hi
+            if L > pos:
+                src = seqops.new_source(it, f'data{pos}', 'bytes', L - pos, L - pos, tags=WIRE)
+                segs.append(Sl(src, 0, L - pos))
+            sample = seqops.normalise(it, 'bytes', tuple(segs), WIRE)
+            return it.call_function(bfi, [sample], {})
+        an = Analysis(prog, mode='unroll', unroll=4)
+        try:
+            paths = an.explore(entry)
+        except AnalysisError as ex:
+            und.append((L, str(ex)))
+            continue
+        vals = set()
+        blocked = None
+        for p in paths:
+            n += 1
+            if p.outcome != 'return' or p.tainted or p.unknowns:
+                blocked = f'{p.outcome} {p.value!r}' if p.outcome != 'return' else f'{(p.tainted or p.unknowns)[0]}'
+                continue
+            v = p.interp.resolve(p.value)
+            vals.add(v.value if isinstance(v, ConstV) else repr(v))
+        wrong = {v for v in vals if v != want}
+        if wrong:
+            bad.append((L, preds, want, why, f'returns {sorted(map(str, vals))}'))
+        elif blocked or not vals:
+            und.append((L, blocked or 'no path'))
+    return bad, und, n
+
+
 def check(prog, res, tier):
     res.assumptions = [ASSUMPTIONS['A2'], ASSUMPTIONS['A3'], ASSUMPTIONS['A4']]
     res.explanation = (
@@ -132,7 +182,24 @@ def check(prog, res, tier):
     res.count(evaluations=n_eval)
     blocked_ob.abstract = table[:8]
     if blockers:
-        blocked_ob.verdict, blocked_ob.detail = UNDECIDED, f'decision function not fully interpreted: {blockers[0].outcome} {blockers[0].value!r}'
+        # the function has loops: evaluate it exactly, cell by cell, on samples of concrete length whose trailer positions
+        # hold 0x40 0x40 (or a two-byte value known to differ) and whose other bytes are symbolic
+        bad, und, n_exact = exact_cells(prog, res, bfi, cells)
+        res.count(evaluations=n_exact)
+        if und:
+            blocked_ob.verdict = UNDECIDED
+            blocked_ob.detail = f'decision function not fully interpreted ({blockers[0].outcome} {blockers[0].value!r}); ' \
+                                f'exact evaluation of cell len={und[0][0]} is blocked: {und[0][1]}'
+            res.add(blocked_ob)
+            bad = None
+    if bad is None:
+        pass
+    elif blockers and not bad:
+        blocked_ob.verdict, blocked_ob.detail = PROVED, f'{len(cells)} cells evaluated exactly on samples of concrete length (loops fully unrolled)'
+        res.add(blocked_ob)
+        bad = None
+    if bad is None:
+        pass
     elif bad:
         L, preds, want, why, got = bad[0]
         blocked_ob.verdict = REFUTED
@@ -141,7 +208,8 @@ def check(prog, res, tier):
         blocked_ob.witness = {'len(sample)': L, **{f'sample[{k[0]}:{k[1]}]==pad': t for k, t in preds.items()}}
     else:
         blocked_ob.verdict, blocked_ob.detail = PROVED, f'{len(cells)} cells evaluated over {len(runs_b.inv)} abstract paths'
-    res.add(blocked_ob)
+    if bad is not None:
+        res.add(blocked_ob)
 
     # ---- C17.b validity ladder
     def entry_i(it):
